@@ -1,7 +1,7 @@
 (* C14: soundness of the content interval — a region (or document) that the cache skips at t paints nothing at t. *)
-From TT Require Import Model.Doc Gen.StyleTables Model.Isd Model.SigTimes Spec.IsdSpec Spec.StyleSpec Spec.RenderSpec.
-From TT Require Import Proofs.Common.ElemInd Proofs.Common.StyleFrame Proofs.C01.Leaves Proofs.C01.Lwsp.
-From TT Require Import Proofs.C13.Shape Proofs.C13.Styles Proofs.C03.Values Proofs.C03.Cascade Proofs.C14.Restrict.
+From TT Require Import Model.Doc Gen.StyleTables Model.Isd Model.SigTimes Model.CloneTrigger Spec.IsdSpec Spec.StyleSpec Spec.RenderSpec Spec.DocWf.
+From TT Require Import Proofs.Common.ElemInd Proofs.Common.StyleFrame Proofs.C01.Leaves Proofs.C01.Lwsp Proofs.C01.Display.
+From TT Require Import Proofs.C13.Shape Proofs.C13.Styles Proofs.C03.Values Proofs.C03.Cascade Proofs.C14.Cache Proofs.C14.Restrict.
 
 (* ---- the interval covers t ------------------------------------------------------------------------------- *)
 Definition covers (ci : option Q * option Q) (t : Q) : Prop :=
@@ -51,41 +51,86 @@ Proof.
   inversion IH as [|? ? Hc Hcs]; subst. apply (IHcs Hcs). apply Hc. exact H1.
 Qed.
 
-(* ---- content model of documents without ruby --------------------------------------------------------------- *)
-Fixpoint cm_wf (e : elem) : bool :=
-  match e with
-  | Elem a cs =>
-      match e_kind a with
-      | KBody => forallb (fun c => kind_eqb (e_kind (eattrs c)) KDiv) cs
-      | KDiv => forallb (fun c => kind_eqb (e_kind (eattrs c)) KP || kind_eqb (e_kind (eattrs c)) KDiv) cs
-      | KP => forallb (fun c => kind_eqb (e_kind (eattrs c)) KSpan || kind_eqb (e_kind (eattrs c)) KBr) cs
-      | KSpan => forallb (fun c => kind_eqb (e_kind (eattrs c)) KSpan || kind_eqb (e_kind (eattrs c)) KBr || kind_eqb (e_kind (eattrs c)) KText) cs
-      | KBr | KText => match cs with [] => true | _ => false end
-      | _ => false
-      end && forallb cm_wf cs
-  end.
+(* ---- the content model (Spec/DocWf.v), ruby included -------------------------------------------------------- *)
+Lemma cm_ok_node a cs :
+  cm_ok (Elem a cs) = forallb (fun c => child_ok (e_kind a) (e_kind (eattrs c))) cs && forallb cm_ok cs.
+Proof.
+  reflexivity.
+Qed.
 
-(* a surviving element (other than a text node, which only occurs below a span) lies in the content interval *)
-Lemma go_some_child d t sel assoc par pbx pex : forall cs children,
+(* kinds whose presence in a snapshot implies an active span or br below (or at) them *)
+Definition content_kind (k : kind) : bool := match k with KText | KRb | KRbc | KRegion => false | _ => true end.
+
+Lemma child_ok_content pk ck : child_ok pk ck = true -> pk <> KRuby -> pk <> KSpan -> pk <> KRbc -> content_kind ck = true.
+Proof. destruct pk, ck; cbn; congruence. Qed.
+
+(* the snapshot element has the kind of its source *)
+Lemma finish_kind a st children r : finish_element a st children = Ok (Some r) -> e_kind (eattrs r) = e_kind a.
+Proof.
+  unfold finish_element. intros H.
+  destruct (negb (push_children_ok (e_kind a) children) && is_nonempty_l children); [discriminate|].
+  match type of H with context [Elem ?at_ ?ch] => set (e' := Elem at_ ch) in H end.
+  assert (Hk : e_kind (eattrs e') = e_kind a) by reflexivity.
+  destruct (keep_always (e_kind a)); [injection H as <-; exact Hk|].
+  match type of H with match ?c with _ => _ end = _ => destruct c end; [|injection H as <-; exact Hk].
+  destruct (e_kind a); try discriminate.
+  destruct (sget (strip_inapplicable KRegion st) p_ShowBackground) as [v|]; [|discriminate].
+  destruct v; try discriminate. destruct (tag =? e_ShowBackgroundType_always); [injection H as <-; exact Hk | discriminate].
+Qed.
+Lemma proc_kind d t sel : forall e inh par pb pe r, proc d t sel inh par pb pe e = Ok (Some r) -> e_kind (eattrs r) = e_kind (eattrs e).
+Proof.
+  intros [a cs] inh par pb pe r H. cbn [proc] in H.
+  destruct (negb (active_at t _)); [discriminate|].
+  match type of H with (if ?b then _ else _) = _ => destruct b end; [discriminate|].
+  destruct (style_phase d t a par _) as [st|]; [|discriminate]. cbn [bind] in H.
+  destruct (display_none st); [discriminate|].
+  match type of H with bind ?g _ = _ => destruct g as [children|] end; [|discriminate]. cbn [bind] in H.
+  apply finish_kind in H. exact H.
+Qed.
+
+(* every child of the snapshot element comes from a child of the source *)
+Lemma go_children_src d t sel assoc par pbx pex : forall cs children,
   (fix go (l : list elem) : res (list elem) :=
      match l with
      | [] => Ok []
      | c :: l' => bind (proc d t sel assoc par pbx pex c) (fun r => bind (go l') (fun rs => Ok (match r with Some x => x :: rs | None => rs end)))
      end) cs = Ok children ->
-  children <> [] -> exists c r, In c cs /\ proc d t sel assoc par pbx pex c = Ok (Some r).
+  forall x, In x children -> exists c, In c cs /\ proc d t sel assoc par pbx pex c = Ok (Some x).
 Proof.
-  induction cs as [|c cs IH]; intros children H Hne; [injection H as <-; congruence|].
-  destruct (proc d t sel assoc par pbx pex c) as [[r|]|] eqn:Ec; cbn [bind] in H; try discriminate.
-  - exists c, r. split; [left; reflexivity | exact Ec].
-  - match type of H with bind ?g _ = _ => destruct g as [rs|] eqn:Er end; [|discriminate]. cbn [bind] in H. injection H as <-.
-    destruct (IH rs eq_refl Hne) as (c' & r' & Hin & Hp). exists c', r'. split; [right; exact Hin | exact Hp].
+  induction cs as [|c cs IH]; intros children H x Hx; [injection H as <-; destruct Hx|].
+  destruct (proc d t sel assoc par pbx pex c) as [rc|] eqn:Ec; cbn [bind] in H; [|discriminate].
+  match type of H with bind ?g _ = _ => destruct g as [rs|] eqn:Er end; [|discriminate]. cbn [bind] in H. injection H as <-.
+  destruct rc as [y|].
+  - destruct Hx as [<-|Hx]; [exists c; split; [left; reflexivity | exact Ec]|].
+    destruct (IH rs eq_refl x Hx) as (c' & Hin & Hp). exists c'. split; [right; exact Hin | exact Hp].
+  - destruct (IH rs eq_refl x Hx) as (c' & Hin & Hp). exists c'. split; [right; exact Hin | exact Hp].
 Qed.
 
 Lemma finish_some_children a st children r :
-  finish_element a st children = Ok (Some r) -> keep_always (e_kind a) = false -> e_kind a <> KRegion -> children <> [].
+  finish_element a st children = Ok (Some r) -> keep_always (e_kind a) = false -> e_kind a <> KRegion ->
+  children <> [] /\ push_children_ok (e_kind a) children = true.
 Proof.
-  unfold finish_element. intros H Hk Hr Hnil. subst children. cbn [is_nonempty_l andb] in H. rewrite andb_false_r in H.
-  rewrite Hk in H. destruct (e_kind a); try discriminate; try congruence; cbn in H; discriminate.
+  unfold finish_element. intros H Hk Hr.
+  destruct children as [|c0 cs0].
+  - exfalso. cbn [is_nonempty_l andb] in H. rewrite andb_false_r in H.
+    rewrite Hk in H. destruct (e_kind a); try discriminate; try congruence; cbn in H; discriminate.
+  - split; [discriminate|]. cbn [is_nonempty_l] in H. rewrite andb_true_r in H.
+    destruct (push_children_ok (e_kind a) (c0 :: cs0)); [reflexivity | discriminate].
+Qed.
+
+(* every admissible sequence of ruby children contains a ruby text (rt) or a ruby text container (rtc) *)
+Lemma kinds_eqb_eq : forall a b, kinds_eqb a b = true -> a = b.
+Proof.
+  induction a as [|x a IH]; intros [|y b] H; cbn [kinds_eqb] in H; try discriminate; [reflexivity|].
+  apply andb_true_iff in H as [H1 H2]. rewrite (IH b H2). destruct x, y; try discriminate; reflexivity.
+Qed.
+Lemma ruby_has_text cs : ruby_children_ok cs = true ->
+  exists x, In x cs /\ (e_kind (eattrs x) = KRt \/ e_kind (eattrs x) = KRtc).
+Proof.
+  unfold ruby_children_ok. intros H.
+  assert (Hin : In KRt (kinds_of cs) \/ In KRtc (kinds_of cs)).
+  { repeat (apply orb_true_iff in H as [H|H]); apply kinds_eqb_eq in H; rewrite H; cbn; tauto. }
+  unfold kinds_of in Hin. destruct Hin as [Hin|Hin]; apply in_map_iff in Hin as (x & Hk & Hx); exists x; tauto.
 Qed.
 
 Fixpoint content_children (pb pe : option Q) (cs : list elem) (ci : option Q * option Q) : option Q * option Q :=
@@ -112,9 +157,9 @@ Lemma content_children_mono t pb pe : forall cs ci, covers ci t -> covers (conte
 Proof. induction cs as [|c cs IH]; intros ci H; [exact H|]. cbn [content_children]. apply IH, content_elem_mono, H. Qed.
 
 Lemma content_children_hit d t sel assoc par pb pe : forall cs c rc,
-  Forall (fun e => forall inh par pb pe r ci, cm_wf e = true -> e_kind (eattrs e) <> KText ->
+  Forall (fun e => forall inh par pb pe r ci, cm_ok e = true -> content_kind (e_kind (eattrs e)) = true ->
                    proc d t sel inh par pb pe e = Ok (Some r) -> covers (content_elem pb pe e ci) t) cs ->
-  In c cs -> cm_wf c = true -> e_kind (eattrs c) <> KText -> proc d t sel assoc par pb pe c = Ok (Some rc) ->
+  In c cs -> cm_ok c = true -> content_kind (e_kind (eattrs c)) = true -> proc d t sel assoc par pb pe c = Ok (Some rc) ->
   forall ci, covers (content_children pb pe cs ci) t.
 Proof.
   induction cs as [|c0 cs IH]; intros c rc HF Hin Hwf Hk Hp ci; [destruct Hin|].
@@ -123,29 +168,327 @@ Proof.
   - apply (IH c rc Hcs Hin Hwf Hk Hp).
 Qed.
 
+(* a surviving element of any kind other than text, ruby base (container) lies in the content interval: an active
+   span or br is at or below it *)
 Lemma proc_covered d t sel : forall e inh par pb pe r ci,
-  cm_wf e = true -> e_kind (eattrs e) <> KText ->
+  cm_ok e = true -> content_kind (e_kind (eattrs e)) = true ->
   proc d t sel inh par pb pe e = Ok (Some r) -> covers (content_elem pb pe e ci) t.
 Proof.
-  induction e as [a cs IH] using elem_ind2. intros inh par pb pe r ci Hwf Hnt H.
-  cbn [cm_wf] in Hwf. apply andb_true_iff in Hwf as [Hk Hwfcs]. rewrite forallb_forall in Hwfcs.
-  cbn [eattrs] in Hnt. cbn [proc] in H. rewrite content_elem_node. cbv zeta.
+  induction e as [a cs IH] using elem_ind2. intros inh par pb pe r ci Hwf Hck H.
+  rewrite cm_ok_node in Hwf. apply andb_true_iff in Hwf as [Hk Hwfcs]. rewrite forallb_forall in Hk, Hwfcs.
+  cbn [eattrs] in Hck. cbn [proc] in H. rewrite content_elem_node. cbv zeta.
   set (iv := make_absolute (e_begin a) (e_end a) pb pe) in *.
   destruct (active_at t iv) eqn:Eact; cbn [negb] in H; [|discriminate].
   match type of H with (if ?b then _ else _) = _ => destruct b end; [discriminate|].
   destruct (style_phase d t a par iv) as [st|]; [|discriminate]. cbn [bind] in H.
   destruct (display_none st); [discriminate|].
   match type of H with bind ?g _ = _ => destruct g as [children|] eqn:Eg end; [|discriminate]. cbn [bind] in H.
-  assert (Hcontainer : keep_always (e_kind a) = false -> e_kind a <> KRegion ->
-            (forall c, In c cs -> e_kind (eattrs c) <> KText) ->
+  (* a container: some surviving child of a content kind *)
+  assert (Hhit : forall c rc, In c cs -> content_kind (e_kind (eattrs c)) = true ->
+                 proc d t sel (match e_region a with Some r => Some r | None => inh end) (Some (e_kind a, st)) (Some (fst iv)) (snd iv) c = Ok (Some rc) ->
+                 forall ci', covers (content_children (Some (fst iv)) (snd iv) cs ci') t).
+  { intros c rc Hin Hc Hpc ci'. apply (content_children_hit d t sel _ _ _ _ cs c rc IH Hin (Hwfcs c Hin) Hc Hpc). }
+  assert (Hcontainer : keep_always (e_kind a) = false -> e_kind a <> KRegion -> e_kind a <> KRuby -> e_kind a <> KSpan -> e_kind a <> KRbc ->
             forall ci', covers (content_children (Some (fst iv)) (snd iv) cs ci') t).
-  { intros Hka Hnr Hkids ci'.
-    destruct (go_some_child _ _ _ _ _ _ _ cs children Eg (finish_some_children a st children r H Hka Hnr)) as (c & rc & Hin & Hpc).
-    apply (content_children_hit d t sel _ _ _ _ cs c rc IH Hin (Hwfcs c Hin) (Hkids c Hin) Hpc). }
-  destruct (e_kind a) eqn:Ek; try discriminate Hk; try congruence.
-  - apply Hcontainer; [reflexivity | discriminate|]. intros c Hin E. rewrite forallb_forall in Hk. specialize (Hk c Hin). rewrite E in Hk. discriminate.
-  - apply Hcontainer; [reflexivity | discriminate|]. intros c Hin E. rewrite forallb_forall in Hk. specialize (Hk c Hin). rewrite E in Hk. discriminate.
-  - apply Hcontainer; [reflexivity | discriminate|]. intros c Hin E. rewrite forallb_forall in Hk. specialize (Hk c Hin). rewrite E in Hk. discriminate.
+  { intros Hka Hnr H1 H2 H3 ci'.
+    destruct (finish_some_children a st children r H Hka Hnr) as [Hne _].
+    destruct children as [|x xs]; [congruence|].
+    destruct (go_children_src _ _ _ _ _ _ _ cs _ Eg x (or_introl eq_refl)) as (c & Hin & Hpc).
+    apply (Hhit c x Hin (child_ok_content _ _ (Hk c Hin) H1 H2 H3) Hpc). }
+  destruct (e_kind a) eqn:Ek; try discriminate Hck.
+  - apply Hcontainer; try reflexivity; discriminate.
+  - apply Hcontainer; try reflexivity; discriminate.
+  - apply Hcontainer; try reflexivity; discriminate.
   - apply content_children_mono. apply widen_covers. right. exact Eact.
   - apply content_children_mono. apply widen_covers. right. exact Eact.
+  - (* ruby: the admissible child sequences all contain rt or rtc *)
+    intros. assert (Hka : keep_always (e_kind a) = false) by (rewrite Ek; reflexivity).
+    assert (Hnr : e_kind a <> KRegion) by (rewrite Ek; discriminate).
+    destruct (finish_some_children a st children r H Hka Hnr) as [_ Hpush]. rewrite Ek in Hpush. cbn [push_children_ok] in Hpush.
+    destruct (ruby_has_text children Hpush) as (x & Hx & Hkx).
+    destruct (go_children_src _ _ _ _ _ _ _ cs _ Eg x Hx) as (c & Hin & Hpc).
+    apply (Hhit c x Hin); [|exact Hpc]. rewrite <- (proc_kind _ _ _ _ _ _ _ _ _ Hpc). destruct Hkx as [-> | ->]; reflexivity.
+  - apply Hcontainer; try reflexivity; discriminate.
+  - apply Hcontainer; try reflexivity; discriminate.
+  - apply Hcontainer; try reflexivity; discriminate.
+Qed.
+
+(* ---- the region's own painting: background shown, not transparent, opaque, visible -------------------------- *)
+Lemma region_facts :
+  plain_prop p_Opacity = true /\ plain_prop p_Visibility = true /\ plain_prop p_ShowBackground = true /\ plain_prop p_BackgroundColor = true /\
+  In p_Opacity all_props /\ In p_Visibility all_props /\ In p_ShowBackground all_props /\ In p_BackgroundColor all_props /\
+  applicable KRegion p_Opacity = true /\ applicable KRegion p_Visibility = true /\ applicable KRegion p_ShowBackground = true /\
+  applicable KRegion p_BackgroundColor = true /\
+  sget initial_values p_BackgroundColor = Some (VColor 0) /\ e_ShowBackgroundType_whenActive <> e_ShowBackgroundType_always.
+Proof. repeat split; try (vm_compute; reflexivity); try (cbn; tauto); discriminate. Qed.
+
+(* the computed value of a plain property of a region element that carries no animation step *)
+Lemma region_plain d t a iv st p :
+  e_kind a = KRegion -> e_anims a = [] -> plain_prop p = true -> In p all_props ->
+  style_phase d t a None iv = Ok st ->
+  sget st p = match sget (e_styles a) p with Some v => Some v | None => default_of d p end.
+Proof.
+  intros Hk Han Hp Hin H.
+  assert (Hl : is_leaf_kind (e_kind a) = false) by (rewrite Hk; reflexivity).
+  assert (Hpar : forall pk pst, @None (kind * smap) = Some (pk, pst) -> shas pst p = true) by (intros; discriminate).
+  rewrite (style_phase_plain d t a None iv st p Hl Hp Hin Hpar H).
+  unfold specified. cbn [fst snd]. rewrite Han. reflexivity.
+Qed.
+
+(* what finish_element returns for a region *)
+Lemma finish_region a st children x :
+  e_kind a = KRegion -> finish_element a st children = Ok (Some x) ->
+  x = Elem (isd_attrs a (strip_inapplicable KRegion st)) children.
+Proof.
+  intros Hk H. unfold finish_element in H. rewrite Hk in H. cbn [push_children_ok negb andb keep_always] in H.
+  destruct children as [|c cs]; [|injection H as <-; rewrite ?Hk; reflexivity].
+  destruct (sget (strip_inapplicable KRegion st) p_ShowBackground) as [v|]; [|discriminate].
+  destruct v; try discriminate. destruct (tag =? e_ShowBackgroundType_always); [injection H as <-; rewrite ?Hk; reflexivity | discriminate].
+Qed.
+
+(* a childless region that paints: the computed style shows a background *)
+Definition shows_background (st : smap) : bool :=
+  match sget st p_ShowBackground with Some (VEnum x) => x =? e_ShowBackgroundType_always | _ => false end &&
+  match sget st p_BackgroundColor with Some (VColor c) => negb (c mod 256 =? 0) | _ => false end &&
+  match sget st p_Opacity with Some (VNum q) => negb (Qeq_bool q 0) | _ => true end &&
+  match sget st p_Visibility with Some (VEnum x) => negb (x =? e_VisibilityType_hidden) | _ => true end.
+Lemma paints_childless a st : paints (Elem (isd_attrs a (strip_inapplicable KRegion st)) []) = shows_background st.
+Proof.
+  destruct region_facts as (_ & _ & _ & _ & _ & _ & _ & _ & A1 & A2 & A3 & A4 & _).
+  unfold paints, shows_background. cbn [echildren eattrs isd_attrs e_styles]. rewrite !sget_strip, A1, A2, A3, A4. reflexivity.
+Qed.
+
+(* _region_always_has_background is a sound test: a region element without animation steps for which it answers
+   False never shows a background (its specified styles win over initial values) *)
+Lemma rahb_sound d t a iv st :
+  e_kind a = KRegion -> style_phase d t a None iv = Ok st -> display_none st = false ->
+  region_always_has_background a = false -> shows_background st = false.
+Proof.
+  destruct region_facts as (P1 & P2 & P3 & P4 & I1 & I2 & I3 & I4 & _ & _ & _ & _ & _ & Hwa).
+  intros Hk Hst Hdn Hr. unfold region_always_has_background in Hr.
+  destruct (e_anims a) as [|s l] eqn:Han; [|discriminate]. cbn [is_nonempty_l] in Hr.
+  pose proof (region_plain d t a iv st p_Opacity Hk Han P1 I1 Hst) as GO.
+  pose proof (region_plain d t a iv st p_Visibility Hk Han P2 I2 Hst) as GV.
+  pose proof (region_plain d t a iv st p_ShowBackground Hk Han P3 I3 Hst) as GS.
+  pose proof (region_plain d t a iv st p_BackgroundColor Hk Han P4 I4 Hst) as GB.
+  set (bop := match sget (e_styles a) p_Opacity with Some (VNum q) => Qeq_bool q 0 | _ => false end) in Hr.
+  set (bdisp := match sget (e_styles a) p_Display with Some (VEnum x) => x =? e_DisplayType_none | _ => false end) in Hr.
+  set (bvis := match sget (e_styles a) p_Visibility with Some (VEnum x) => x =? e_VisibilityType_hidden | _ => false end) in Hr.
+  set (bsb := match sget (e_styles a) p_ShowBackground with Some (VEnum x) => x =? e_ShowBackgroundType_whenActive | _ => false end) in Hr.
+  set (bbg := match sget (e_styles a) p_BackgroundColor with Some (VColor c) => c mod 256 =? 0 | _ => false end) in Hr.
+  assert (Hcases : bop = true \/ bdisp = true \/ bvis = true \/ bsb = true \/ bbg = true).
+  { destruct bop; [tauto|]. destruct bdisp; [tauto|]. destruct bvis; [tauto|]. destruct bsb; [tauto|]. destruct bbg; [tauto|]. discriminate Hr. }
+  clear Hr. unfold shows_background.
+  destruct Hcases as [Hc|[Hc|[Hc|[Hc|Hc]]]].
+  - unfold bop in Hc. destruct (sget (e_styles a) p_Opacity) as [v|]; [|discriminate]. destruct v; try discriminate.
+    rewrite GO, Hc. cbn [negb]. rewrite !andb_false_r. reflexivity.
+  - (* specified display none: the region is not in the snapshot at all *)
+    exfalso. unfold bdisp in Hc. rewrite (style_phase_display d t a None iv st Hst) in Hdn. apply negb_false_iff in Hdn.
+    unfold displayed in Hdn. rewrite Han in Hdn. cbn [last_active_display] in Hdn.
+    destruct (sget (e_styles a) p_Display) as [v|]; [|discriminate]. destruct v; try discriminate. rewrite Hc in Hdn. discriminate.
+  - unfold bvis in Hc. destruct (sget (e_styles a) p_Visibility) as [v|]; [|discriminate]. destruct v; try discriminate.
+    rewrite GV, Hc. cbn [negb]. rewrite !andb_false_r. reflexivity.
+  - unfold bsb in Hc. destruct (sget (e_styles a) p_ShowBackground) as [v|]; [|discriminate]. destruct v; try discriminate.
+    rewrite GS. apply Z.eqb_eq in Hc. subst tag.
+    destruct (e_ShowBackgroundType_whenActive =? e_ShowBackgroundType_always) eqn:E2; [apply Z.eqb_eq in E2; congruence | reflexivity].
+  - unfold bbg in Hc. destruct (sget (e_styles a) p_BackgroundColor) as [v|]; [|discriminate]. destruct v; try discriminate.
+    rewrite GB, Hc. cbn [negb]. rewrite !andb_false_r. reflexivity.
+Qed.
+
+(* ---- one region of the snapshot --------------------------------------------------------------------------- *)
+Definition body_wf (d : doc) : Prop := match d_body d with Some b => body_ok b = true | None => True end.
+
+Lemma proc_region_paints d t sel r x :
+  body_wf d -> e_kind (eattrs r) = KRegion -> proc_region d t sel r = Ok (Some x) -> paints x = true ->
+  (exists b, d_body d = Some b /\ forall ci, covers (content_elem None None b ci) t) \/
+  (active_at t (make_absolute (e_begin (eattrs r)) (e_end (eattrs r)) None None) = true /\
+   exists st, style_phase d t (eattrs r) None (make_absolute (e_begin (eattrs r)) (e_end (eattrs r)) None None) = Ok st /\
+              display_none st = false /\ shows_background st = true).
+Proof.
+  intros Hwf Hk H Hp. unfold proc_region in H.
+  set (a := eattrs r) in *. set (iv := make_absolute (e_begin a) (e_end a) None None) in *.
+  destruct (active_at t iv) eqn:Eact; cbn [negb] in H; [|discriminate].
+  destruct (style_phase d t a None iv) as [st|] eqn:Est; [|discriminate]. cbn [bind] in H.
+  destruct (display_none st) eqn:Edn; [discriminate|].
+  match type of H with bind ?g _ = _ => destruct g as [children|] eqn:Eg end; [|discriminate]. cbn [bind] in H.
+  apply (finish_region a st children x Hk) in H. subst x.
+  destruct children as [|c cs].
+  - right. split; [reflexivity|]. exists st. rewrite paints_childless in Hp. repeat split; assumption.
+  - left. unfold body_wf in Hwf. destruct (d_body d) as [b|]; [|discriminate].
+    exists b. split; [reflexivity|]. intros ci.
+    destruct (proc d t sel None (Some (KRegion, st)) None None b) as [[xb|]|] eqn:Eb; cbn [bind] in Eg; try discriminate.
+    unfold body_ok in Hwf. apply andb_true_iff in Hwf as [Hkb Hcm].
+    apply (proc_covered d t sel b None (Some (KRegion, st)) None None xb ci Hcm); [|exact Eb].
+    destruct (e_kind (eattrs b)); try discriminate Hkb. reflexivity.
+Qed.
+
+Lemma region_ok_shape r : region_ok r = true -> e_kind (eattrs r) = KRegion /\ echildren r = [] /\ exists rid, e_id (eattrs r) = Some rid.
+Proof.
+  unfold region_ok. intros H. apply andb_true_iff in H as [H H3]. apply andb_true_iff in H as [H1 H2].
+  split; [destruct (e_kind (eattrs r)); try discriminate; reflexivity|].
+  split; [destruct (echildren r); [reflexivity | discriminate]|].
+  destruct (e_id (eattrs r)) as [rid|]; [exists rid; reflexivity | discriminate].
+Qed.
+
+(* a region that is in the snapshot and paints is inside the content interval: through its own background
+   (_region_always_has_background answered True) or through the content of the body *)
+Lemma region_covered d t sel r x :
+  body_wf d -> region_ok r = true -> proc_region d t sel r = Ok (Some x) -> paints x = true ->
+  (forall ci, covers (content_elem None None r ci) t) \/
+  (exists b, d_body d = Some b /\ forall ci, covers (content_elem None None b ci) t).
+Proof.
+  intros Hwf Hr H Hp. destruct (region_ok_shape r Hr) as (Hk & Hcs & _).
+  destruct (proc_region_paints d t sel r x Hwf Hk H Hp) as [Hb|(Hact & st & Hst & Hdn & Hsb)]; [right; exact Hb|].
+  left. intros ci. destruct r as [a cs]. cbn [echildren eattrs] in *. subst cs. rewrite content_elem_node. cbv zeta.
+  cbn [content_children]. rewrite Hk.
+  destruct (region_always_has_background a) eqn:Er.
+  - apply widen_covers. right. exact Hact.
+  - rewrite (rahb_sound d t a _ st Hk Hst Hdn Er) in Hsb. discriminate.
+Qed.
+
+(* ---- the whole cached document ---------------------------------------------------------------------------- *)
+Lemma fold_regions_mono t : forall l ci, covers ci t -> covers (fold_left (fun ci r => content_elem None None r ci) l ci) t.
+Proof. induction l as [|r l IH]; intros ci H; [exact H|]. cbn [fold_left]. apply IH, content_elem_mono, H. Qed.
+Lemma fold_regions_hit t r : forall l ci, In r l -> (forall ci, covers (content_elem None None r ci) t) ->
+  covers (fold_left (fun ci r => content_elem None None r ci) l ci) t.
+Proof.
+  induction l as [|r0 l IH]; intros ci Hin H; [destruct Hin|]. cbn [fold_left]. destruct Hin as [->|Hin].
+  - apply fold_regions_mono, H.
+  - apply IH; assumption.
+Qed.
+
+Lemma covers_not_skipped ci t : covers ci t -> skip_cached t (match fst ci with None => None | Some c0 => Some (c0, snd ci) end) = false.
+Proof.
+  unfold covers. destruct (fst ci) as [c0|]; [|intros []]. intros [H0 H1]. unfold skip_cached, Qltb, Qleb.
+  apply Qle_bool_iff in H0. rewrite H0. cbn [negb orb].
+  destruct (snd ci) as [c1|]; [|reflexivity].
+  destruct (Qle_bool c1 t) eqn:E; [|reflexivity]. apply Qle_bool_iff in E. exfalso. apply (Qlt_not_le _ _ H1 E).
+Qed.
+
+Lemma collect_single f rs : collect_regions [f] = Ok rs -> exists o, f = Ok o /\ rs = match o with Some e => [e] | None => [] end.
+Proof.
+  cbn [collect_regions]. destruct f as [o|]; [|discriminate]. cbn [bind]. intros H. injection H as <-. exists o. split; [reflexivity | destruct o; reflexivity].
+Qed.
+
+Lemma default_region_background d t st :
+  style_phase d t (eattrs default_region) None (make_absolute None None None None) = Ok st ->
+  shas (d_initials d) p_BackgroundColor = false -> shows_background st = false.
+Proof.
+  destruct region_facts as (_ & _ & _ & P4 & _ & _ & _ & I4 & _ & _ & _ & _ & Hinit & _).
+  intros Hst Hi.
+  pose proof (region_plain d t (eattrs default_region) _ st p_BackgroundColor eq_refl eq_refl P4 I4 Hst) as GB.
+  cbn [default_region eattrs e_styles sget] in GB. unfold default_of in GB. unfold shas in Hi.
+  destruct (sget (d_initials d) p_BackgroundColor); [discriminate|]. rewrite Hinit in GB.
+  unfold shows_background. rewrite GB. cbn. rewrite andb_false_r. reflexivity.
+Qed.
+
+(* MAIN (i): whatever the cache skips paints nothing.  c is a cached document: the document itself, or a clone. *)
+Theorem skipped_paints_nothing c t rs :
+  doc_wf c = true -> skip_cached t (content_interval c) = true -> isd c t = Ok rs -> Forall (fun r => paints r = false) rs.
+Proof.
+  intros Hwf Hskip Hi. apply Forall_forall. intros x Hx. destruct (paints x) eqn:Hp; [exfalso|reflexivity].
+  unfold doc_wf in Hwf. apply andb_true_iff in Hwf as [Hregs Hbody]. rewrite forallb_forall in Hregs.
+  assert (Hbw : body_wf c) by (unfold body_wf; destruct (d_body c); [exact Hbody | exact I]).
+  unfold content_interval in Hskip. unfold isd in Hi.
+  destruct (d_regions c) as [|r0 rest] eqn:Er.
+  - (* no region: the default region *)
+    apply collect_single in Hi as (o & Ho & ->). destruct o as [y|]; [|destruct Hx]. destruct Hx as [<-|[]].
+    cbn [fold_left] in Hskip.
+    destruct (shas (d_initials c) p_BackgroundColor) eqn:Ebg; [cbn in Hskip; discriminate|].
+    destruct (proc_region_paints c t None default_region y Hbw eq_refl Ho Hp) as [(b & Eb & Hcov)|(_ & st & Hst & _ & Hsb)].
+    + rewrite Eb in Hskip. rewrite (covers_not_skipped _ t (Hcov _)) in Hskip. discriminate.
+    + rewrite (default_region_background c t st Hst Ebg) in Hsb. discriminate.
+  - apply collect_map_ok in Hi as (outs & HF & ->).
+    apply in_flat_map in Hx as (o & Ho & Hxo). destruct o as [y|]; [|destruct Hxo]. destruct Hxo as [<-|[]].
+    assert (exists r, In r (r0 :: rest) /\ proc_region c t (e_id (eattrs r)) r = Ok (Some y)) as (r & Hr & Hpr).
+    { clear - HF Ho. induction HF as [|r o' l l' Hro HF IH]; [destruct Ho|].
+      destruct Ho as [->|Ho]; [exists r; split; [left; reflexivity | exact Hro]|].
+      destruct (IH Ho) as (r' & Hin & Hp'). exists r'. split; [right; exact Hin | exact Hp']. }
+    assert (Hcov : covers (match d_body c with
+                           | Some b => content_elem None None b (fold_left (fun ci r => content_elem None None r ci) (r0 :: rest) (None, Some 0%Q))
+                           | None => fold_left (fun ci r => content_elem None None r ci) (r0 :: rest) (None, Some 0%Q)
+                           end) t).
+    { destruct (region_covered c t _ r y Hbw (Hregs r Hr) Hpr Hp) as [Hc|(b & Eb & Hc)].
+      - pose proof (fold_regions_hit t r (r0 :: rest) (None, Some 0%Q) Hr Hc) as Hf.
+        destruct (d_body c); [apply content_elem_mono; exact Hf | exact Hf].
+      - rewrite Eb. apply Hc. }
+    rewrite (covers_not_skipped _ t Hcov) in Hskip. discriminate.
+Qed.
+
+(* ---- the clones are well formed ------------------------------------------------------------------------------ *)
+Lemma restrict_children_src rid assoc : forall cs cs',
+  (fix go (l : list elem) : res (list elem) :=
+     match l with
+     | [] => Ok []
+     | c :: l' => bind (restrict rid assoc c) (fun r => bind (go l') (fun rs => Ok (match r with Some x => x :: rs | None => rs end)))
+     end) cs = Ok cs' ->
+  forall x, In x cs' -> exists c, In c cs /\ restrict rid assoc c = Ok (Some x).
+Proof.
+  induction cs as [|c cs IH]; intros cs' H x Hx; [injection H as <-; destruct Hx|].
+  destruct (restrict rid assoc c) as [rc|] eqn:Ec; cbn [bind] in H; [|discriminate].
+  match type of H with bind ?g _ = _ => destruct g as [rs|] eqn:Er end; [|discriminate]. cbn [bind] in H. injection H as <-.
+  destruct rc as [y|].
+  - destruct Hx as [<-|Hx]; [exists c; split; [left; reflexivity | exact Ec]|].
+    destruct (IH rs eq_refl x Hx) as (c' & Hin & Hp). exists c'. split; [right; exact Hin | exact Hp].
+  - destruct (IH rs eq_refl x Hx) as (c' & Hin & Hp). exists c'. split; [right; exact Hin | exact Hp].
+Qed.
+
+Lemma restrict_cm rid : forall e inh e', cm_ok e = true -> restrict rid inh e = Ok (Some e') ->
+  cm_ok e' = true /\ e_kind (eattrs e') = e_kind (eattrs e).
+Proof.
+  induction e as [a cs IH] using elem_ind2. intros inh e' Hwf H.
+  rewrite cm_ok_node in Hwf. apply andb_true_iff in Hwf as [Hk Hwfcs]. rewrite forallb_forall in Hk, Hwfcs.
+  cbn [restrict] in H.
+  match type of H with (if ?b then _ else _) = _ => destruct b end; [discriminate|].
+  match type of H with bind ?g _ = _ => destruct g as [cs'|] eqn:Eg end; [|discriminate]. cbn [bind] in H.
+  destruct (is_nonempty_l cs' && negb (push_children_ok (e_kind a) cs')); [discriminate|]. injection H as <-.
+  split; [|reflexivity]. rewrite cm_ok_node. apply andb_true_iff. rewrite Forall_forall in IH.
+  split; apply forallb_forall; intros x Hx;
+    destruct (restrict_children_src rid _ cs cs' Eg x Hx) as (c & Hc & Hrc);
+    destruct (IH c Hc _ x (Hwfcs c Hc) Hrc) as [H1 H2].
+  - cbn [eattrs]. rewrite H2. apply Hk, Hc.
+  - exact H1.
+Qed.
+
+Lemma clone_wf d r c : doc_wf d = true -> In r (d_regions d) -> clone_one_region d r = Ok c -> doc_wf c = true.
+Proof.
+  unfold doc_wf. intros Hwf Hr Hc. apply andb_true_iff in Hwf as [Hregs Hbody]. rewrite forallb_forall in Hregs.
+  unfold clone_one_region in Hc. destruct (e_id (eattrs r)) as [rid|]; [|discriminate].
+  destruct (d_body d) as [b|].
+  - destruct (restrict rid None b) as [b'|] eqn:Eb; [|discriminate]. cbn [bind] in Hc. injection Hc as <-.
+    cbn [d_regions d_body forallb]. rewrite (Hregs r Hr). cbn [andb].
+    destruct b' as [x|]; [|reflexivity]. unfold body_ok in *. apply andb_true_iff in Hbody as [H1 H2].
+    destruct (restrict_cm rid b None x H2 Eb) as [G1 G2]. rewrite G2, H1, G1. reflexivity.
+  - cbn [bind] in Hc. injection Hc as <-. cbn [d_regions d_body forallb]. rewrite (Hregs r Hr). reflexivity.
+Qed.
+
+Lemma doc_wf_ids d : doc_wf d = true -> Forall (fun r => exists rid, e_id (eattrs r) = Some rid) (d_regions d).
+Proof.
+  unfold doc_wf. intros H. apply andb_true_iff in H as [H _]. rewrite forallb_forall in H.
+  apply Forall_forall. intros r Hr. destruct (region_ok_shape r (H r Hr)) as (_ & _ & Hid). exact Hid.
+Qed.
+
+(* MAIN: the cached snapshot renders like the uncached one — it is the uncached snapshot minus regions that paint
+   nothing — for every well-formed document (ruby included) and every time, outside the recorded trigger *)
+Theorem cached_render_equiv d t ds rs :
+  doc_wf d = true -> clone_empties_doc d = false -> cached_docs d = Ok ds -> isd d t = Ok rs ->
+  exists rs', isd_cached d t = Ok rs' /\ omits_only (fun r => paints r = false) rs' rs /\ render rs' = render rs.
+Proof.
+  intros Hwf Htr Hc Hi.
+  destruct (cached_omits_only (fun r => paints r = false) d t ds rs) as (rs' & H1 & H2); try assumption.
+  - intros r c rs0 Hr Hcl Hsk Hic. apply (skipped_paints_nothing c t rs0 (clone_wf d r c Hwf Hr Hcl) Hsk Hic).
+  - intros rs0 _ Hsk Hic. apply (skipped_paints_nothing d t rs0 Hwf Hsk Hic).
+  - intros Hlen. apply clones_keep_of_trigger; [apply doc_wf_ids, Hwf | exact Htr | exact Hlen].
+  - exists rs'. split; [exact H1|]. split; [exact H2 | apply omits_only_render, H2].
+Qed.
+
+(* with at most one region nothing is cloned: no trigger, and the statement holds for every well-formed document *)
+Lemma small_no_trigger d : (length (d_regions d) <= 1)%nat -> clone_empties_doc d = false.
+Proof. unfold clone_empties_doc. destruct (d_regions d) as [|r1 [|r2 rs]]; cbn [length]; intros H; try reflexivity. lia. Qed.
+
+Theorem render_equiv_small d t rs :
+  doc_wf d = true -> (length (d_regions d) <= 1)%nat -> isd d t = Ok rs ->
+  exists rs', isd_cached d t = Ok rs' /\ omits_only (fun r => paints r = false) rs' rs /\ render rs' = render rs.
+Proof.
+  intros Hwf Hlen Hi. apply (cached_render_equiv d t [d] rs Hwf (small_no_trigger d Hlen) (cached_docs_small d Hlen) Hi).
 Qed.
